@@ -121,14 +121,14 @@ func progArith(r *h.Rng) prog {
 // inner addresses: pages 16..19 of the inner RAM are the ones the histories open with `pages`
 func innerAddr(r *h.Rng) uint64 {
 	base := uint64(16+r.Intn(4)) * 4096
-	switch r.Intn(6) {
+	switch r.Intn(10) {
 	case 0:
 		return base
-	case 1:
+	case 1, 2:
 		return base + 4096 - uint64(1+r.Intn(8)) // straddles into the next page
-	case 2:
+	case 3, 4:
 		return base + uint64(r.Intn(4096))
-	case 3:
+	case 5:
 		return uint64(r.Intn(16)) * 4096 // below 2^16: panic
 	default:
 		return base + uint64(r.Intn(256))
@@ -263,6 +263,16 @@ type gstate struct {
 	st     h.Stats
 	nextAt uint64 // bump pointer for blobs in page 16
 	loops  bool   // some program of this history can run for ever: no astronomically large gas then
+	hot    []uint64 // inner addresses that (probably) hold data: poke destinations
+}
+
+// an inner address to read back: mostly at or next to one that was written
+func (g *gstate) hotAddr() uint64 {
+	r := g.r
+	if len(g.hot) > 0 && r.Chance(2, 3) {
+		return g.hot[r.Intn(len(g.hot))] + uint64(r.Intn(5)) - 2
+	}
+	return innerAddr(r)
 }
 
 func (g *gstate) emit(f string, a ...interface{}) { g.ops = append(g.ops, fmt.Sprintf(f, a...)) }
@@ -297,6 +307,13 @@ func (g *gstate) outerAddr(n uint64, wantWrite bool) uint64 {
 	}
 	if len(rw) == 0 {
 		return 17 * pg
+	}
+	if n > 2048 && n <= 3*pg { // a long buffer: where the following pages are writable too, if anywhere
+		for _, p := range rw {
+			if g.acc[p+1] == 2 && (n <= pg || g.acc[p+2] == 2) {
+				return uint64(p)*pg + uint64(r.Intn(64))
+			}
+		}
 	}
 	p := rw[r.Intn(len(rw))]
 	if !wantWrite && len(ro) > 0 && r.Chance(1, 3) {
@@ -383,7 +400,13 @@ func (g *gstate) opMachine() {
 		g.st.Inc("blob-overwritten-after-machine")
 	}
 	if !strings.HasPrefix(p.kind, "bad") && pz == uint64(len(p.blob)) && at >= 16*pg && at+pz <= 18*pg {
-		g.live = append(g.live, g.minFree())
+		n := g.minFree()
+		g.live = append(g.live, n)
+		if r.Chance(9, 10) { // the usual next step: give the machine some RAM (inner pages 16..19)
+			first := uint64(16 + r.Intn(2))
+			g.emit("g,%d,%d,%d,%d", n, first, 20-first-uint64(r.Intn(2)), 2-r.Intn(8)/7)
+			g.st.Inc("op-pages-open")
+		}
 	}
 }
 
@@ -422,32 +445,52 @@ func (g *gstate) opPages() {
 	g.st.Inc(fmt.Sprintf("op-pages-r%d", min(mode, 7)))
 }
 
+// length of a peek / poke copy: mostly a few bytes, sometimes more than a page, rarely absurd
+func copyLen(r *h.Rng) uint64 {
+	switch r.Intn(20) {
+	case 0:
+		return 0
+	case 1: // more than a page (costly for the reference model: rare)
+		if r.Chance(1, 4) {
+			return uint64([]int{4095, 4096, 4097, 5000, 8192}[r.Intn(5)])
+		}
+		return uint64(100 + r.Intn(200))
+	case 2:
+		return []uint64{1 << 20, 1 << 32, 1<<32 + 1, ^uint64(0)}[r.Intn(4)]
+	case 3, 4, 5, 6:
+		return uint64(17 + r.Intn(84))
+	default:
+		return uint64(1 + r.Intn(16))
+	}
+}
+
 func (g *gstate) opPoke() {
 	r := g.r
-	z := uint64([]int{0, 1, 2, 7, 8, 16, 33, 64, 100, 4096, 4097, 5000}[r.Intn(12)])
-	if r.Chance(1, 30) {
-		z = []uint64{1 << 20, 1 << 32, 1<<32 + 1, ^uint64(0)}[r.Intn(4)]
-	}
+	z := copyLen(r)
 	src := g.outerAddr(z, false)
 	dst := innerAddr(r)
 	if r.Chance(1, 20) {
 		dst = []uint64{0, 1<<32 - z, 1<<32 - z + 1, 1 << 32, ^uint64(0)}[r.Intn(5)]
 	}
-	if r.Chance(1, 2) && z > 0 && z <= 64 { // fresh bytes to carry
+	if r.Chance(3, 4) && z > 0 && z <= 100 { // fresh bytes to carry
 		g.emit("w,%d,%s", src, h.Hex(r.Bytes(int(z))))
 	}
-	g.emit("p,%d,%d,%d,%d", g.machineID(), src, dst, z)
+	g.hot = append(g.hot, dst)
+	n := g.machineID()
+	g.emit("p,%d,%d,%d,%d", n, src, dst, z)
 	g.st.Inc("op-poke")
+	if r.Chance(2, 5) { // read it back (shifted by one now and then) into another buffer
+		back := dst + uint64(r.Intn(4)/3)
+		g.emit("k,%d,%d,%d,%d", n, g.outerAddr(z, true), back, z)
+		g.st.Inc("op-peek")
+	}
 }
 
 func (g *gstate) opPeek() {
 	r := g.r
-	z := uint64([]int{0, 1, 2, 7, 8, 16, 33, 64, 100, 4096, 4097, 5000}[r.Intn(12)])
-	if r.Chance(1, 30) {
-		z = []uint64{1 << 20, 1 << 32, 1<<32 + 1, ^uint64(0)}[r.Intn(4)]
-	}
+	z := copyLen(r)
 	dst := g.outerAddr(z, true)
-	src := innerAddr(r)
+	src := g.hotAddr()
 	if r.Chance(1, 20) {
 		src = []uint64{0, 1<<32 - z, 1<<32 - z + 1, 1 << 32, ^uint64(0)}[r.Intn(5)]
 	}
